@@ -257,3 +257,39 @@ func Harness_C05_L1() {
 	}
 	c05CheckFinal("C05.L1", e, rec, c05Reference(S, ops), ops)
 }
+
+// Harness_C10_Binding (C10-K2): an explicit annotation observed first (as accumulation.run does)
+// fixes its site: whatever constraints follow, in any order, the site keeps exactly the annotated
+// value with the annotation as its explanation; contradicting flows become conflicts (A1/A2 of
+// C05) and never override it.
+func Harness_C10_Binding() {
+	S := ndParam("S", 3)
+	N := ndParam("N", 3)
+	n := 1 + ndChoice("n", N)
+	annNil := ndChoice("annotated_nilable", 2) == 1
+	x := ndInt("x", 0, S-1)
+	ops := make([]c05Op, 0, n+1)
+	if annNil {
+		ops = append(ops, c05Op{kind: c05AnnNil, a: x})
+	} else {
+		ops = append(ops, c05Op{kind: c05AnnNonnil, a: x})
+	}
+	ops = append(ops, c05ReadOps(S, n)...)
+	rec := &c05Rec{}
+	e := &Engine{inferredMap: newInferredMap(nil), diagnosticEngine: rec}
+	for k, op := range ops {
+		c05Apply(e, k, op)
+	}
+	v, ok := e.inferredMap.Load(c05Site(x))
+	ndAssert("C10.K2.annotated_site_is_determined", ok)
+	dv, isDet := v.(*DeterminedVal)
+	ndAssert("C10.K2.annotated_site_is_determined", isDet)
+	if isDet {
+		ndObserveBool("final_nilable", dv.Bool.Val())
+		ndAssert("C10.K2.inference_never_overrides_an_annotation", dv.Bool.Val() == annNil)
+		_, t := dv.Bool.(TrueBecauseAnnotation)
+		_, f := dv.Bool.(FalseBecauseAnnotation)
+		ndAssert("C10.K2.annotation_stays_the_explanation", t || f)
+	}
+	c05CheckFinal("C10.K2", e, rec, c05Reference(S, ops), ops)
+}
